@@ -181,7 +181,7 @@ def _(u):
     from .envlib import depot_tour_reward_unit
 
     u.inline((FC, "CVRPEnv._get_reward"))
-    depot_tour_reward_unit(u, F, "CVRPTWEnv._get_reward", "CVRPTWEnv")
+    depot_tour_reward_unit(u, F, "CVRPTWEnv._get_reward", "CVRPTWEnv", make_td=state)
 
 
 @unit("cvrptw.rowlocal.step", file=F, func="CVRPTWEnv._step", props=("C04", "C14"))
